@@ -169,4 +169,147 @@ theorem eval_frame (w : World) (ev : Ev) (σ : State) :
   have := evalEv_frame w ev σ
   cases h : evalEv w ev σ <;> rw [h] at this <;> exact this
 
+/-! ## N threads, all interleavings
+
+`Thr.Config.start L progs`: lock free, `LC_COLLATE = L`, one thread per program (a program = a
+list of flat evaluations: manager, number of `strcoll` calls of the body, does the body raise).
+`Thr.Reach w c c'`: `c'` is reached from `c` by any finite number of steps, each taken by an
+arbitrary thread (`Thr.Step`) — every interleaving at the granularity of one lock / `setlocale` /
+`strcoll` operation per step.  Any number of threads, any programs, any availability. -/
+
+open Thr in
+/-- **Mutual exclusion.**  In every reachable configuration at most one thread is between
+`acquire` and `release`, and the lock bit says exactly whether one is. -/
+theorem mutual_exclusion (w : World) (L : Loc) (hL : w.avail L = true) (progs : List (List Job))
+    (c : Config) (hr : Reach w (Config.start L progs) c) :
+    holders c.ts ≤ 1 ∧ (c.sh.lock = true ↔ holders c.ts = 1) := by
+  have hi := inv_reach w L hL _ _ (inv_start L progs) hr
+  have := hi.count
+  cases hl : c.sh.lock <;> simp [hl] at this ⊢ <;> omega
+
+open Thr in
+/-- mutual exclusion, index form: two threads inside the critical section are the same thread -/
+theorem mutual_exclusion_pairwise (w : World) (L : Loc) (hL : w.avail L = true)
+    (progs : List (List Job)) (c : Config) (hr : Reach w (Config.start L progs) c)
+    (i j : Nat) (hi : i < c.ts.length) (hj : j < c.ts.length)
+    (h1 : c.ts[i].pc.holds = true) (h2 : c.ts[j].pc.holds = true) : i = j :=
+  countP_le_one_index (fun t : Thread => t.pc.holds) c.ts
+    (mutual_exclusion w L hL progs c hr).1 i j hi hj h1 h2
+
+open Thr in
+/-- **Each thread sees its locale.**  Every `strcoll`/`strxfrm` call made by a body inside a
+locale scope ran while `LC_COLLATE` was the locale that this thread's own `__enter__` installed
+(the requested one, or the fallback) — in every reachable configuration, for every thread. -/
+theorem each_thread_sees_its_locale (w : World) (L : Loc) (hL : w.avail L = true)
+    (progs : List (List Job)) (c : Config) (hr : Reach w (Config.start L progs) c) :
+    ∀ t ∈ c.ts, ∀ p ∈ t.seen, p.2 = p.1 :=
+  (inv_reach w L hL _ _ (inv_start L progs) hr).seen
+
+open Thr in
+/-- **All schedules restore.**  Whenever no thread is inside the critical section — in
+particular when all threads have finished — the lock is free and `LC_COLLATE` is the initial
+locale, whatever the interleaving was. -/
+theorem all_schedules_restore (w : World) (L : Loc) (hL : w.avail L = true)
+    (progs : List (List Job)) (c : Config) (hr : Reach w (Config.start L progs) c)
+    (hq : ∀ t ∈ c.ts, t.pc.holds = false) : c.sh.lock = false ∧ c.sh.lc = L := by
+  have hi := inv_reach w L hL _ _ (inv_start L progs) hr
+  have h0 : holders c.ts = 0 := List.countP_eq_zero.mpr (by simpa using hq)
+  have hl : c.sh.lock = false := by
+    have := hi.count
+    cases hl : c.sh.lock with
+    | false => rfl
+    | true => simp [hl, h0] at this
+  exact ⟨hl, hi.free hl⟩
+
+open Thr in
+/-- finished threads are outside the critical section -/
+theorem all_done_restored (w : World) (L : Loc) (hL : w.avail L = true)
+    (progs : List (List Job)) (c : Config) (hr : Reach w (Config.start L progs) c)
+    (hd : ∀ t ∈ c.ts, t.done = true) : c.sh = ⟨false, L⟩ := by
+  have := all_schedules_restore w L hL progs c hr (fun t ht => by
+    have := hd t ht
+    simp only [Thread.done, Bool.and_eq_true, beq_iff_eq] at this
+    simp [this.1, Pc.holds])
+  cases hc : c.sh with
+  | mk lock lc => simp_all
+
+open Thr in
+/-- **No deadlock.**  In every reachable configuration with an unfinished thread some thread
+can take a step: a thread blocked in `acquire` always waits for a holder that can move. -/
+theorem no_deadlock_threads (w : World) (L : Loc) (hL : w.avail L = true)
+    (progs : List (List Job)) (c : Config) (hr : Reach w (Config.start L progs) c)
+    (hu : ∃ t ∈ c.ts, t.done = false) : ∃ c', Step w c c' := by
+  have hi := inv_reach w L hL _ _ (inv_start L progs) hr
+  have pick : ∀ t ∈ c.ts, (∃ r, step w c.sh t = some r) → ∃ c', Step w c c' := by
+    intro t ht ⟨⟨s', t'⟩, hstep⟩
+    obtain ⟨pre, post, hsplit⟩ := List.append_of_mem ht
+    refine ⟨⟨s', pre ++ t' :: post⟩, ?_⟩
+    have := Step.mk (w := w) c.sh s' pre post t t' hstep
+    rw [← hsplit] at this
+    exact this
+  cases hl : c.sh.lock with
+  | false =>
+    obtain ⟨t, ht, hd⟩ := hu
+    exact pick t ht (free_enabled w c.sh t hl hd)
+  | true =>
+    have hc := hi.count
+    simp only [hl, ↓reduceIte] at hc
+    have : ∃ t ∈ c.ts, t.pc.holds = true := by
+      have hpos : 0 < List.countP (·.pc.holds) c.ts := by unfold holders at hc; omega
+      obtain ⟨t, ht, hp⟩ := List.countP_pos_iff.mp hpos
+      exact ⟨t, ht, hp⟩
+    obtain ⟨t, ht, hh⟩ := this
+    exact pick t ht (holder_enabled w c.sh t hh)
+
+open Thr in
+/-- **Concurrent = sequential.**  In every reachable configuration, under every interleaving,
+the outcomes a thread has delivered so far are a prefix of — and, once the thread has finished,
+exactly — `prog.map (Job.expected w)`: the outcome of each of its evaluations is a function of
+that evaluation and the installed locales alone; what the other threads do, and when, has no
+influence.  The threads keep their programs in place (`c.ts.map (·.prog) = progs`). -/
+theorem thread_outcomes_schedule_independent (w : World) (L : Loc) (hL : w.avail L = true)
+    (progs : List (List Job)) (c : Config) (hr : Reach w (Config.start L progs) c) :
+    c.ts.map (·.prog) = progs ∧
+    ∀ t ∈ c.ts, (∃ rest, t.outs ++ rest = t.prog.map (Job.expected w)) ∧
+      (t.done = true → t.outs = t.prog.map (Job.expected w)) := by
+  obtain ⟨ho, hp⟩ := out_start w L progs
+  obtain ⟨h1, h2⟩ := out_reach w L hL _ _ (inv_start L progs) ho hr
+  refine ⟨by simpa [Progs] using h2.trans hp, fun t ht => ⟨⟨_, (h1 t ht).2⟩, fun hd => ?_⟩⟩
+  have := (h1 t ht).2
+  simp only [Thread.done, Bool.and_eq_true, beq_iff_eq, List.isEmpty_iff] at hd
+  simpa [pending, owesCur, hd.1, hd.2] using this
+
+open Thr in
+/-- … and that function is the sequential model: `Job.expected w j` is the outcome `evalEv`
+gives for the same evaluation run alone, from any clean state -/
+theorem expected_is_sequential_outcome (w : World) (j : Job) (σ : State) (hc : Clean w σ) :
+    ∃ σ', evalEv w j.toEv σ = .ok (j.expected w) σ' :=
+  evalEv_flat_expected w j σ hc.1 hc.2
+
+open Thr in
+/-- **Every schedule is finite**: no execution from a configuration takes more steps than its
+`weight` (total work left) — so with `no_deadlock_threads`, every maximal execution ends with
+all threads finished, and `all_done_restored` applies to its end. -/
+theorem schedules_bounded (w : World) (c c' : Config) (n : Nat) (h : ReachN w c c' n) :
+    n ≤ c.weight := by
+  have := h.weight; omega
+
+/-- the thread theorems are not vacuous (test on literals): two threads with different locales
+and a third whose locale is missing, run under one concrete interleaving to completion -/
+example :
+    let w : World := ⟨fun n => n == "C" || n == "de_DE.UTF-8" || n == "fr_FR.UTF-8", fun
+      | .name s => s
+      | .pair l => l ++ ".UTF-8"⟩
+    let progs : List (List Thr.Job) :=
+      [[⟨⟨some (.name "de_DE.UTF-8"), false⟩, 2, false⟩],
+       [⟨⟨some (.name "fr_FR.UTF-8"), false⟩, 1, true⟩],
+       [⟨⟨some (.pair "xx"), true⟩, 1, false⟩]]
+    let c := Thr.runSched w [0, 1, 0, 2, 1, 0, 0, 1, 0, 0, 2, 0, 0, 0, 1, 1, 1, 1, 1, 1, 1, 2, 2, 2, 2, 2]
+      (Thr.Config.start "C" progs)
+    c.sh = ⟨false, "C"⟩ ∧ c.ts.map (·.outs) = [[.ok], [.err (.body 0)], [.err .FOCH0002]] ∧
+    c.ts.map (·.seen) = [[("de_DE.UTF-8", "de_DE.UTF-8"), ("de_DE.UTF-8", "de_DE.UTF-8")],
+                          [("fr_FR.UTF-8", "fr_FR.UTF-8")], []] ∧
+    c.ts.all (·.done) = true := by
+  decide +kernel
+
 end EPV.C19
